@@ -15,6 +15,8 @@ func propC17(c *Ctx, r *Report) {
 	r.Trusted = []string{"go/ssa", "SQLite"}
 	// a held batch's status is decided from the database, not from memory an aborted attempt left behind
 	ruleNoCarriedReads(c, newSharedAnalysis(c), r, "C17-P8/no-carried-state", reachOf(c, "node.Pegnetd.ApplyTransactionBatchesInHolding", "node.Pegnetd.ApplyTransactionBlock"), carriedAllowedAverages, "the batch executors")
+	// the developer coinbase recorded in history is the amount credited (shared with C15)
+	ruleDevRewards(c, r, newEraCtx(c, r), "C17-P10/dev-reward-history")
 	// each recorded action is returned as recorded: per-row records of the history readers are fresh
 	ruleRowRecordFresh(c, r, "C17-P9/row-record-fresh", c.RAPI)
 	rb := c.fn("node.Pegnetd.recordBatch")
